@@ -195,6 +195,12 @@ def scenarios(ctx):
     out.append(Std('reenter-connected-disconnect', profile='pubsub', mode='async', connects=[(True, 2, 4), (False, 0, 3)],
                    reconnects=[(True, 2, 4)], reenter=('ok:connect>disconnect',), lose_kinds=('done',), drain_max_ticks=12,
                    drain_horizon=40.0, budgets=dict(connect=2, connack=2, tick=3, lose=1, rebuild=1)))
+    # connect() called again from the errback of a connect() the broker refused or that timed out
+    for mode in ('sync', 'async'):
+        out.append(Std('reenter-refused-connect-%s' % mode, profile='pubsub', mode=mode, connects=[(True, 2, 4), (False, 0, 3)],
+                       reconnects=[(True, 2, 4)], reenter=('err:connect>connect',), badconnacks=(5,), lose_kinds=('done',),
+                       drain_max_ticks=12, drain_horizon=40.0,
+                       budgets=dict(connect=2, connack=2, badconnack=1, tick=3, lose=1, rebuild=1, pub=1), pub_qos=(1,)))
     out.append(Std('two-addresses', profile='pubsub', mode='async', naddr=2, connects=[(True, 0, 4), (False, 2, 4)],
                    reconnects=[(True, 0, 4)], pub_qos=(1,), lose_kinds=('done',), drain_max_ticks=12, drain_horizon=40.0,
                    budgets=dict(tick=2),
